@@ -221,6 +221,53 @@ type Rule struct {
 	Q       []int  `json:"q,omitempty"`
 	Inner   []Rule `json:"inner,omitempty"`
 	Fetched bool   `json:"fetched,omitempty"`
+	// @import by URL: number of the file (Doc.Files) the rule names; a number
+	// without file is a failed fetch.  Several rules may name the same URL, a
+	// file may import itself.  (Inner/Fetched: inline form of corpus files and
+	// of the systematic streams, turned into a fresh URL by normalise.)
+	URL int `json:"url,omitempty"`
+}
+
+type Files map[int][]Rule
+
+// normalise gives every inline @import (Inner/Fetched) a URL of its own
+func normalise(rs []Rule, files Files, next *int) []Rule {
+	out := make([]Rule, len(rs))
+	for i, r := range rs {
+		switch r.K {
+		case RMedia:
+			r.Inner = normalise(r.Inner, files, next)
+		case RImport:
+			if r.URL == 0 {
+				*next++
+				r.URL = *next
+				if r.Fetched {
+					files[r.URL] = nil // reserve
+					files[r.URL] = normalise(r.Inner, files, next)
+				}
+				r.Inner, r.Fetched = nil, false
+			}
+		}
+		out[i] = r
+	}
+	return out
+}
+
+func fileName(url int) string { return fmt.Sprintf("s%d.css", url) }
+
+// the same URL is spelled in different ways
+func importCSS(url int, variant int) string {
+	name := fileName(url)
+	switch variant % 4 {
+	case 0:
+		return "url(" + name + ")"
+	case 1:
+		return "\"" + name + "\""
+	case 2:
+		return "\"./" + name + "\""
+	default:
+		return "url(http://verif.test/" + name + ")"
+	}
 }
 
 var mediaNames = []string{"all", "print", "screen", "speech"}
@@ -244,20 +291,25 @@ func mediaCoq(q []int) string {
 // files served by the fetcher of one document
 type files struct {
 	m     map[string]string
-	n     int
-	other int
+	n       int
+	other   int
+	imports int
 }
 
 func (f *files) add(content string) string {
 	f.n++
-	name := fmt.Sprintf("s%d.css", f.n)
+	name := fmt.Sprintf("l%d.css", f.n)
 	f.m["http://verif.test/"+name] = content
 	return name
 }
 
-func (f *files) missing() string {
-	f.n++
-	return fmt.Sprintf("missing%d.css", f.n)
+// serves every file of the table
+func newFiles(fs Files) *files {
+	f := &files{m: map[string]string{}}
+	for _, url := range sortedURLs(fs) {
+		f.m["http://verif.test/"+fileName(url)] = rulesCSS(fs[url], f)
+	}
+	return f
 }
 
 func (f *files) fetch(url string) (utils.RemoteRessource, error) {
@@ -277,17 +329,11 @@ func rulesCSS(rs []Rule, f *files) string {
 		case RMedia:
 			sb.WriteString("@media " + mediaCSS(r.Q) + " {\n" + rulesCSS(r.Inner, f) + "}\n")
 		case RImport:
-			var name string
-			if r.Fetched {
-				name = f.add(rulesCSS(r.Inner, f))
-			} else {
-				name = f.missing()
+			if r.URL == 0 {
+				panic("c03: @import not normalised")
 			}
-			if f.n%2 == 0 {
-				sb.WriteString("@import url(" + name + ") " + mediaCSS(r.Q) + ";\n")
-			} else {
-				sb.WriteString("@import \"" + name + "\" " + mediaCSS(r.Q) + ";\n")
-			}
+			f.imports++
+			sb.WriteString("@import " + importCSS(r.URL, r.URL+f.imports) + " " + mediaCSS(r.Q) + ";\n")
 		case ROther:
 			f.other++
 			if f.other%2 == 0 {
@@ -302,20 +348,31 @@ func rulesCSS(rs []Rule, f *files) string {
 
 func rulesCoq(rs []Rule) string {
 	if len(rs) == 0 {
-		return "RNil"
+		return "UNil"
 	}
 	r := rs[0]
 	rest := rulesCoq(rs[1:])
 	switch r.K {
 	case RStyle:
-		return "(RStyle " + groupCoq(r.G) + " " + bodyCoq(r.B) + " " + rest + ")"
+		return "(UStyle " + groupCoq(r.G) + " " + bodyCoq(r.B) + " " + rest + ")"
 	case RMedia:
-		return "(RMedia " + mediaCoq(r.Q) + " " + rulesCoq(r.Inner) + " " + rest + ")"
+		return "(UMedia " + mediaCoq(r.Q) + " " + rulesCoq(r.Inner) + " " + rest + ")"
 	case RImport:
-		return "(RImport " + mediaCoq(r.Q) + " " + vlib.Bool(r.Fetched) + " " + rulesCoq(r.Inner) + " " + rest + ")"
+		if r.URL == 0 {
+			panic("c03: @import not normalised")
+		}
+		return "(UImport " + mediaCoq(r.Q) + " " + strconv.Itoa(r.URL) + " " + rest + ")"
 	default:
-		return "(ROther " + rest + ")"
+		return "(UOther " + rest + ")"
 	}
+}
+
+func filesCoq(fs Files) string {
+	var l []string
+	for _, u := range sortedURLs(fs) {
+		l = append(l, fmt.Sprintf("(UF %d %s)", u, rulesCoq(fs[u])))
+	}
+	return vlib.List(l)
 }
 
 type AuthorSheet struct {
@@ -323,6 +380,9 @@ type AuthorSheet struct {
 	Rules  []Rule `json:"rules"`
 	Link   bool   `json:"link,omitempty"`    // <link rel=stylesheet> instead of <style>
 	InBody bool   `json:"in_body,omitempty"` // placed at the end of <body>
+	// > 0: <link> to the file Doc.Files[URL] (a sheet that may also be imported,
+	// by others or by itself); Rules is a copy of that file
+	URL int `json:"url,omitempty"`
 }
 
 type UserSheet struct {
@@ -345,6 +405,47 @@ type Doc struct {
 	// compare with the specification instead of the model (documents outside
 	// the domain of the model = spec theorem: `&` in a top-level rule)
 	VsSpec bool `json:"vs_spec,omitempty"`
+	// what the URLs named by @import rules serve
+	Files Files `json:"files,omitempty"`
+}
+
+// inline @import rules (corpus files, systematic streams) get URLs
+func (d *Doc) normalise() {
+	if d.Files == nil {
+		d.Files = Files{}
+	}
+	next := 1000
+	for u := range d.Files {
+		if u >= next {
+			next = u + 1
+		}
+	}
+	for _, u := range sortedURLs(d.Files) {
+		d.Files[u] = normalise(d.Files[u], d.Files, &next)
+	}
+	d.UA = normalise(d.UA, d.Files, &next)
+	d.PH = normalise(d.PH, d.Files, &next)
+	for i := range d.Authors {
+		d.Authors[i].Rules = normalise(d.Authors[i].Rules, d.Files, &next)
+	}
+	for i := range d.Users {
+		d.Users[i].Rules = normalise(d.Users[i].Rules, d.Files, &next)
+	}
+	for i, a := range d.Authors {
+		if a.URL > 0 {
+			d.Authors[i].Rules = d.Files[a.URL]
+			d.Authors[i].Link = true
+		}
+	}
+}
+
+func sortedURLs(fs Files) []int {
+	var ids []int
+	for u := range fs {
+		ids = append(ids, u)
+	}
+	sort.Ints(ids)
+	return ids
 }
 
 // ------------------------------------------------------------------ running /repo
@@ -403,7 +504,8 @@ func readBack(st pr.ElementStyle, prop int) int {
 }
 
 func (d *Doc) materialise() (htmlText string, ua, ph string, users []string, f *files) {
-	f = &files{m: map[string]string{}}
+	d.normalise()
+	f = newFiles(d.Files)
 	ua = rulesCSS(d.UA, f)
 	ph = rulesCSS(d.PH, f)
 	for _, u := range d.Users {
@@ -416,7 +518,9 @@ func (d *Doc) materialise() (htmlText string, ua, ph string, users []string, f *
 			media = fmt.Sprintf(" media=\"%s\"", mediaCSS(a.Media))
 		}
 		var el string
-		if a.Link {
+		if a.URL > 0 {
+			el = fmt.Sprintf("<link rel=stylesheet href=\"%s\"%s>\n", fileName(a.URL), media)
+		} else if a.Link {
 			name := f.add(rulesCSS(a.Rules, f))
 			el = fmt.Sprintf("<link rel=stylesheet href=\"%s\"%s>\n", name, media)
 		} else {
@@ -579,7 +683,7 @@ func (d *Doc) coq(obs []observed) string {
 	for _, inBody := range []bool{false, true} {
 		for _, a := range d.Authors {
 			if a.InBody == inBody {
-				authors = append(authors, fmt.Sprintf("(mkAuthor %s %s)", mediaCoq(a.Media), rulesCoq(a.Rules)))
+				authors = append(authors, fmt.Sprintf("(mkUAuthor %s %s)", mediaCoq(a.Media), rulesCoq(a.Rules)))
 			}
 		}
 	}
@@ -608,8 +712,8 @@ func (d *Doc) coq(obs []observed) string {
 	if d.VsSpec {
 		ctor = "CDocSpec"
 	}
-	return fmt.Sprintf(ctor+" %d %s %s %d %s %d %s %s %s", d.Device, vlib.Bool(d.Hints), rulesCoq(d.UA), d.Device,
-		rulesCoq(d.PH), d.Device, vlib.List(authors), vlib.List(users), vlib.List(elems))
+	return fmt.Sprintf(ctor+" %d %s %s %d %s %d %s %s %s %s", d.Device, vlib.Bool(d.Hints), rulesCoq(d.UA), d.Device,
+		rulesCoq(d.PH), d.Device, vlib.List(authors), vlib.List(users), filesCoq(d.Files), vlib.List(elems))
 }
 
 // ------------------------------------------------------------------ generators
@@ -620,6 +724,54 @@ type gen struct {
 	props  []int
 	pseudo bool // pseudo-element selectors allowed
 	used   bool // one was generated
+	// @import: the files of the document, and the URLs that several rules name
+	// (repeated imports, diamonds, cycles)
+	files   Files
+	nextURL int
+	shared  []int
+}
+
+func (g *gen) newURL() int {
+	if g.files == nil {
+		g.files = Files{}
+		g.nextURL = 100
+	}
+	g.nextURL++
+	return g.nextURL
+}
+
+// an @import rule: of a shared URL, of a file of its own, or of a missing file
+func (g *gen) importRule(depth int, nInner int) Rule {
+	r := Rule{K: RImport, Q: g.media()}
+	switch {
+	case len(g.shared) > 0 && g.r.Chance(1, 2):
+		r.URL = vlib.Pick(g.r, g.shared)
+	case g.r.Chance(1, 8):
+		r.URL = g.newURL() // 404
+	default:
+		r.URL = g.newURL()
+		g.files[r.URL] = nil
+		g.files[r.URL] = g.rules(depth+1, nInner)
+	}
+	return r
+}
+
+// creates k files that may import one another (and themselves) any number of times
+func (g *gen) sharedFiles(k int) {
+	for i := 0; i < k; i++ {
+		g.shared = append(g.shared, g.newURL())
+	}
+	for _, u := range g.shared {
+		var rs []Rule
+		for i, n := 0, g.r.Intn(3); i < n; i++ {
+			q := g.media()
+			if g.r.Bool() {
+				q = nil
+			}
+			rs = append(rs, Rule{K: RImport, Q: q, URL: vlib.Pick(g.r, g.shared)})
+		}
+		g.files[u] = append(rs, g.rules(2, g.r.Range(1, 2))...)
+	}
 }
 
 func hasNested(b []Item) bool {
@@ -790,9 +942,17 @@ func (g *gen) rules(depth int, n int) []Rule {
 	var out []Rule
 	// import prologue
 	if depth < 2 && g.r.Chance(1, 4) {
-		k := g.r.Range(1, 2)
+		k := g.r.Range(1, 3)
 		for i := 0; i < k; i++ {
-			out = append(out, Rule{K: RImport, Q: g.media(), Fetched: !g.r.Chance(1, 8), Inner: g.rules(depth+1, g.r.Range(1, 2))})
+			out = append(out, g.importRule(depth, g.r.Range(1, 2)))
+		}
+		// the same URL once more (possibly under another medium), after the others
+		if g.r.Chance(1, 3) {
+			again := out[g.r.Intn(len(out))]
+			if g.r.Bool() {
+				again.Q = g.media()
+			}
+			out = append(out, again)
 		}
 	}
 	for i := 0; i < n; i++ {
@@ -803,7 +963,7 @@ func (g *gen) rules(depth int, n int) []Rule {
 		case k < 17 && depth < 2:
 			out = append(out, Rule{K: RMedia, Q: g.media(), Inner: g.rules(depth+1, g.r.Range(1, 2))})
 		case k < 19 && depth < 2: // possibly misplaced @import
-			out = append(out, Rule{K: RImport, Q: g.media(), Fetched: true, Inner: g.rules(depth+1, 1)})
+			out = append(out, g.importRule(depth, 1))
 		case k == 19:
 			out = append(out, Rule{K: ROther})
 		default:
@@ -911,6 +1071,10 @@ func randomDoc(r *vlib.Rng) *Doc {
 	d := &Doc{Device: r.Range(1, 2), Hints: r.Chance(2, 3)}
 	ids := []int{1, 2, 3, 4}
 	d.Body = g.elems(0, &ids)
+	g.newURL()
+	if r.Chance(1, 3) {
+		g.sharedFiles(r.Range(1, 3))
+	}
 	d.UA = g.rules(0, r.Range(0, 2))
 	if r.Chance(1, 3) {
 		d.PH = g.rules(0, r.Range(1, 2))
@@ -918,6 +1082,9 @@ func randomDoc(r *vlib.Rng) *Doc {
 	na := r.Range(0, 3)
 	for i := 0; i < na; i++ {
 		a := AuthorSheet{Rules: g.rules(0, r.Range(1, 3)), Link: r.Chance(1, 3), InBody: r.Chance(1, 5)}
+		if len(g.shared) > 0 && r.Chance(1, 4) { // <link> to a file that is imported too
+			a = AuthorSheet{URL: vlib.Pick(r, g.shared), InBody: r.Chance(1, 5)}
+		}
 		if r.Chance(1, 4) {
 			a.Media = g.media()
 		}
@@ -944,6 +1111,7 @@ func randomDoc(r *vlib.Rng) *Doc {
 	}
 	sort.Ints(d.Props)
 	d.Pseudo = g.used
+	d.Files = g.files
 	return d
 }
 
@@ -1100,6 +1268,95 @@ func systematicDoc(specs []cspec, placements []int, sameSheet bool, prop int, de
 	return d, true
 }
 
+// ---- import graphs: competing declarations of one level and one specificity, each in
+// a file of its own; the files import one another (chains, diamonds, cycles, themselves)
+// and are imported, any number of times and under different media, by one or two
+// top-level sheets: only the order of appearance after substitution decides
+func importsDoc(r *vlib.Rng, seq int) (*Doc, []string) {
+	prop := []int{6, 7, 0, 3}[seq%4]
+	device := 1 + seq%2
+	d := &Doc{Device: device, Hints: true, Props: []int{prop}, Files: Files{}}
+	k := r.Range(2, 3)
+	origin := r.Intn(3)
+	imp := r.Chance(1, 4)
+	sel := rankSel(r.Range(2, 6))
+	media := func() []int {
+		switch r.Intn(8) {
+		case 0:
+			return []int{device}
+		case 1:
+			return []int{0}
+		case 2:
+			return []int{3 - device} // does not match
+		case 3:
+			return []int{3, device}
+		}
+		return nil
+	}
+	repeat, self := false, false
+	imports := func(n int, owner int) []Rule {
+		var rs []Rule
+		seen := map[int]bool{}
+		for i := 0; i < n; i++ {
+			u := r.Range(1, k)
+			if r.Chance(1, 12) {
+				u = k + 1 // 404
+			}
+			if seen[u] {
+				repeat = true
+			}
+			if u == owner {
+				self = true
+			}
+			seen[u] = true
+			rs = append(rs, Rule{K: RImport, Q: media(), URL: u})
+		}
+		return rs
+	}
+	rule := func(vid int) Rule {
+		dc := Decl{Prop: prop, Vid: vid, Imp: imp}
+		return Rule{K: RStyle, G: []*Sel{sel}, B: []Item{{D: &dc}}}
+	}
+	for u := 1; u <= k; u++ {
+		rs := imports(vlib.Pick(r, []int{0, 0, 0, 1, 1, 2}), u)
+		d.Files[u] = append(rs, rule(10+u))
+	}
+	top := func(i int) []Rule {
+		rs := imports(r.Range(2, 4), 0)
+		if r.Chance(1, 6) { // a rule in between ends the prologue: the following imports are ignored
+			at := r.Range(1, len(rs))
+			rs = append(rs[:at:at], append([]Rule{rule(20 + i)}, rs[at:]...)...)
+		}
+		return rs
+	}
+	nTop := r.Range(1, 2)
+	switch origin {
+	case 0:
+		d.UA = top(0)
+	case 1:
+		for i := 0; i < nTop; i++ {
+			d.Users = append(d.Users, UserSheet{Device: device, Rules: top(i)})
+		}
+	default:
+		for i := 0; i < nTop; i++ {
+			a := AuthorSheet{Rules: top(i), Link: r.Bool()}
+			if r.Chance(1, 5) { // the file itself as a top-level sheet
+				a = AuthorSheet{URL: r.Range(1, k)}
+			}
+			d.Authors = append(d.Authors, a)
+		}
+	}
+	d.Body = "<div class=c2><table id=i1 class=c1></table><p class=c1>x</p></div><table class=c1 id=i2></table>"
+	tags := []string{"imports", "origin:" + []string{"ua", "user", "author"}[origin]}
+	if repeat {
+		tags = append(tags, "same-url-twice-in-a-sheet")
+	}
+	if self {
+		tags = append(tags, "self-import")
+	}
+	return d, tags
+}
+
 // ------------------------------------------------------------------ main
 
 type corpusFile struct {
@@ -1245,9 +1502,13 @@ func main() {
 	for i := 0; i < nFlat; i++ {
 		r := rng.Fork()
 		g := &gen{r: r, vid: 10, props: []int{r.Intn(8), r.Intn(8)}, pseudo: r.Chance(1, 3)}
+		g.newURL()
+		if r.Chance(1, 3) {
+			g.sharedFiles(r.Range(1, 3))
+		}
 		rs := g.rules(0, r.Range(1, 3))
 		device := r.Range(1, 2)
-		f := &files{m: map[string]string{}}
+		f := newFiles(g.files)
 		text := rulesCSS(rs, f)
 		css, err := tree.VerifC03NewCSS(utils.InputString(text), "http://verif.test/", f.fetch, devName(device))
 		if err != nil {
@@ -1273,7 +1534,7 @@ func main() {
 			}
 			dump = append(dump, "(FD "+vlib.List(sp)+" "+vlib.List(ds)+")")
 		}
-		w.Add(vlib.Case{Kind: "flatten", Coq: fmt.Sprintf("CFlat %d %s %s", device, rulesCoq(rs), vlib.List(dump)),
+		w.Add(vlib.Case{Kind: "flatten", Coq: fmt.Sprintf("CFlat %d %s %s %s", device, filesCoq(g.files), rulesCoq(rs), vlib.List(dump)),
 			Desc:       map[string]interface{}{"sheet": text, "fetched_files": f.m, "device": devName(device), "matcher": tree.VerifC03Matcher(css)},
 			Nontrivial: nd > 1})
 	}
@@ -1356,6 +1617,12 @@ func main() {
 				}
 			}
 		}
+	}
+
+	// 5b. import graphs
+	for i := 0; i < *n/15; i++ {
+		d, tags := importsDoc(rng.Fork(), i)
+		emitDoc(w, d, "imports", tags, "")
 	}
 
 	// 6. `&` in a top-level rule (css-nesting: :scope, specificity 0; the code
